@@ -757,6 +757,11 @@ func (vc *VC) exprTargets(env *Env, e Expr, text string) []modTarget {
 			}
 		}
 		// a captured variable (under the name the function gives it now, if the contract's name is gone)
+		if _, bound := env.lookup("&" + x.Name); !bound && !vc.localNames()[x.Name] {
+			if _, known := vc.renamed[x.Name]; !known {
+				env.translate(x) // resolves a renamed variable, if that is what it is
+			}
+		}
 		if a, renamed := vc.renamed[x.Name]; renamed {
 			if _, bound := env.lookup("&" + x.Name); !bound {
 				x = &EIdent{Name: a}
